@@ -147,3 +147,234 @@ contract(GT + 'TestGenerator.test_name', props=['C12', 'C11'],
                             havoc={'testname': T.str, 'self.test_qualifier': T.nat})},
          ensures=[('name-not-handed-out-before', 'not was_taken(result)'),
                   ('name-recorded-as-taken', 'recorded(result)')])
+
+
+# ---------------------------------------------------------------------------
+# TestGenerator.write_script (C11 / C12): which checks the generated script
+# contains.  The text of each test (test_def) and of the header is abstract;
+# what is decided is the sequence of test definitions written to the script:
+# stdout and stderr checks when requested, each with ITS OWN exclusions, and
+# exactly one check per reference file - under the name test_name() hands out,
+# comparing the file itself with its (possibly re-mapped) reference, as text
+# with that file's exclusions and encoding or as binary - and nothing written
+# anywhere but the script.
+# ---------------------------------------------------------------------------
+from collections import OrderedDict as _OD2
+
+
+def _ws_view(it):
+    rc = extract.load_module('tdda/referencetest/gentest.py').classes['TestGenerator']
+    nfiles = it.path.choose([True] * 3)
+    files = [it.fresh_str('outfile%d' % i) for i in range(nfiles)]
+    for a in range(nfiles):
+        for b in range(a + 1, nfiles):
+            it.path.assume(files[a].z != files[b].z)
+    g = {'files': files, 'defs': [], 'writes': [], 'names': {}, 'short': {}, 'ftype': {}, 'mapped': {}}
+    it.ghost['ws'] = g
+
+    def tag(kind, *parts):
+        return SObj('text', {'kind': kind, 'parts': list(parts), '__open__': False})
+    excl = _OD2()
+    for key in ('STDOUT', 'STDERR'):
+        if it.path.choose([True, True]) == 1:
+            excl[key] = (tag('patterns', key), tag('removals', key), tag('substrings', key))
+    shorts = [it.fresh_str('short%d' % i) for i in range(nfiles)]
+    exclusions = SObj('dict', {'__open__': False}, label='exclusions')
+
+    def excl_get(it2, self, k, default=None):
+        if isinstance(k, str):
+            return excl.get(k, default)
+        for i, s in enumerate(shorts):
+            if s is k:
+                return g['short'][i]['exc']
+        return default
+    exclusions.methods['get'] = Builtin(excl_get, 'dict.get')
+    filetypes = SObj('dict', {'__open__': False}, label='filetypes')
+
+    def ft_get(it2, self, k, default=None):
+        for i, s in enumerate(shorts):
+            if s is k:
+                return g['short'][i]['ftype']
+        return default
+    filetypes.methods['get'] = Builtin(ft_get, 'dict.get')
+    ref_map = SObj('dict', {'__open__': False}, label='ref_map')
+
+    def rm_get(it2, self, k, default=None):
+        for i, f in enumerate(files):
+            if f is k:
+                return g['mapped'][i] if g['mapped'][i] is not None else default
+        return default
+    ref_map.methods['get'] = Builtin(rm_get, 'dict.get')
+    for i in range(nfiles):
+        has_exc = it.path.choose([True, True]) == 1
+        is_text = it.fresh(T.bool, 'is_text%d' % i)
+        g['short'][i] = {'exc': (tag('patterns', i), tag('removals', i), tag('substrings', i)) if has_exc else None,
+                         'ftype': SObj('FileType', {'text': is_text, 'encoding': it.fresh_str('enc%d' % i),
+                                                    '__open__': False})}
+        g['mapped'][i] = it.fresh_str('mapped_ref%d' % i) if it.path.choose([True, True]) == 1 else None
+    o = SObj('TestGenerator', {
+        'results': {1: SObj('Result', {'exit_code': it.fresh(T.int, 'exit_code'), '__open__': False})},
+        'reference_files': {1: files}, 'tmpdir_used': it.fresh(T.bool, 'tmpdir_used'),
+        'tmp_dir_shell_var': 'TMPDIR', 'script': it.fresh_str('script'), 'raw_script': 'test_x.py',
+        'command': it.fresh_str('command'), 'cwd': it.fresh_str('cwd'),
+        'check_stdout': it.fresh(T.bool, 'check_stdout'), 'check_stderr': it.fresh(T.bool, 'check_stderr'),
+        'exclusions': exclusions, 'filetypes': filetypes, 'ref_map': ref_map}, label='self')
+    o.repo_class = rc
+
+    def meth(name, fn):
+        o.methods[name] = Builtin(fn, 'TestGenerator.' + name)
+    meth('generated_file_paths', lambda it2, self, in_cls=False: [])
+    meth('cli_command', lambda it2, self, zec=None: it2.fresh_str('cli'))
+    meth('ref_subdir', lambda it2, self: 'refsub')
+    meth('generated_files_var', lambda it2, self: it2.fresh_str('gfv'))
+    meth('remove_previous_outputs', lambda it2, self: it2.fresh_str('rpo'))
+    meth('stdout_path', lambda it2, self, run=1: 'REF/STDOUT')
+    meth('stderr_path', lambda it2, self, run=1: 'REF/STDERR')
+    meth('abs_or_rel', lambda it2, self, p: p)
+
+    def ref_path(it2, self, path, run=1):
+        return tag('default_ref', path)
+    meth('ref_path', ref_path)
+
+    def test_name(it2, self, path):
+        for i, f in enumerate(files):
+            if f is path:
+                n = it2.fresh_str('testname%d' % i)
+                g['names'].setdefault(i, []).append(n)
+                return n
+        raise Unsupported('test_name of an unknown path')
+    meth('test_name', test_name)
+    g['shorts'] = shorts
+    g['excl'] = excl
+    g['tag'] = tag
+    return o
+
+
+def _ws_entry(it, senv):
+    g = it.ghost['ws']
+    files, shorts, tag = g['files'], g['shorts'], g['tag']
+
+    def as_join_repr(it2, path, cwd, name=None, as_pwd=None, inc_tmpdir=False, **kw):
+        return tag('joined', path, inc_tmpdir)
+    it.spec_env['as_join_repr'] = Builtin(as_join_repr, 'as_join_repr')
+    it.spec_env['istmpfile'] = Builtin(lambda it2, p: it2.fresh(T.bool, 'istmp'), 'istmpfile')
+    it.spec_env['FileType'] = Builtin(lambda it2, p: SObj('FileType', {'text': it2.fresh(T.bool, 'ft_text'),
+                                                                      'encoding': None, '__open__': False}), 'FileType')
+    it.spec_env['HEADER'] = '%(SCRIPT)s'
+    it.spec_env['TAIL'] = 'TAIL'
+    it.spec_env['TMPDIR'] = '/tmp/x'
+    it.spec_env['print'] = Builtin(lambda it2, *a, **k: None, 'print')
+
+    def test_def(it2, name, actual, kind, ref_file_path, patterns=None, removals=None, substrings=None, encoding=None):
+        d = dict(name=name, actual=actual, kind=kind, ref=ref_file_path, patterns=patterns, removals=removals,
+                 substrings=substrings, encoding=encoding)
+        g['defs'].append(d)
+        return SObj('text', {'kind': 'test_def', 'parts': [len(g['defs']) - 1], '__open__': False})
+    it.spec_env['test_def'] = Builtin(test_def, 'test_def')
+
+    def split(it2, p):
+        # os.path.split(ref_path)[1]: the short name the exclusions / file types are keyed by
+        for i, f in enumerate(files):
+            m = g['mapped'][i]
+            if (m is not None and p is m) or (isinstance(p, SObj) and p.attrs.get('kind') == 'default_ref'
+                                              and p.attrs['parts'][0] is f):
+                return (it2.fresh_str('head'), shorts[i])
+        raise Unsupported('split of an unknown reference path')
+    ospath = SObj('os.path', {'basename': Builtin(lambda it2, p: it2.fresh_str('base'), 'basename'),
+                              'split': Builtin(split, 'split'), '__open__': False})
+    it.spec_env['os'] = SObj('os', {'path': ospath, '__open__': False})
+
+    def ghost_open(it2, path, mode='r', *a, **k):
+        it2.path.writes.append(('open:' + mode, path))
+        f = SObj('file', {'path': path, '__open__': False})
+        f.methods['write'] = Builtin(lambda it3, self, text: g['writes'].append((path, text)), 'file.write')
+        f.methods['__enter__'] = Builtin(lambda it3, self: self, '__enter__')
+        f.methods['__exit__'] = Builtin(lambda it3, self, *a2: None, '__exit__')
+        return f
+    it.spec_env['open'] = Builtin(ghost_open, 'open')
+
+
+@specfn
+def script_holds_every_check(it, self):
+    g = it.ghost['ws']
+    files, defs, writes, excl = g['files'], g['defs'], g['writes'], g['excl']
+    script = self.attrs['script']
+    if any(p is not script for p, _ in writes):
+        return False
+    texts = [t for _, t in writes]
+    if not texts or texts[-1] != 'TAIL':
+        return False
+    written_defs = [t.attrs['parts'][0] for t in texts if isinstance(t, SObj) and t.attrs.get('kind') == 'test_def']
+    if written_defs != list(range(len(defs))):
+        return False            # every definition built is written, once, in order
+    want = []
+    cs, ce = self.attrs['check_stdout'], self.attrs['check_stderr']
+
+    def concrete(b):
+        if isinstance(b, SBool):
+            v = z3.simplify(b.z)
+            raise Unsupported('flag not decided on this path') if not (z3.is_true(v) or z3.is_false(v)) else None
+            return z3.is_true(v)
+        return bool(b)
+    i = 0
+
+    def stream(name, attr, key, refp):
+        nonlocal i
+        if i >= len(defs):
+            return False
+        d = defs[i]
+        i += 1
+        e = excl.get(key) or (None, None, None)
+        return (d['name'] == name and d['actual'] == attr and d['kind'] == 'String'
+                and isinstance(d['ref'], SObj) and d['ref'].attrs['parts'][0] == refp
+                and d['patterns'] is e[0] and d['removals'] is e[1] and d['substrings'] is e[2])
+    # which stream checks were requested is decided by the path condition
+    def decided(flag):
+        if isinstance(flag, SBool):
+            s = z3.Solver()
+            for c in it.path.pc:
+                s.add(c)
+            s.add(z3.Not(flag.z))
+            return s.check() == z3.unsat
+        return bool(flag)
+    if decided(cs):
+        if not stream('stdout', 'self.output', 'STDOUT', 'REF/STDOUT'):
+            return False
+    if decided(ce):
+        if not stream('stderr', 'self.error', 'STDERR', 'REF/STDERR'):
+            return False
+    for k, f in enumerate(files):
+        if i >= len(defs):
+            return False
+        d = defs[i]
+        i += 1
+        names = g['names'].get(k, [])
+        if len(names) != 1 or d['name'] is not names[0]:
+            return False
+        if not (isinstance(d['actual'], SObj) and d['actual'].attrs['parts'][0] is f and d['actual'].attrs['parts'][1] is True):
+            return False
+        m = g['mapped'][k]
+        ref = d['ref']
+        if not (isinstance(ref, SObj) and ref.attrs.get('kind') == 'joined'):
+            return False
+        inner = ref.attrs['parts'][0]
+        if m is not None:
+            if inner is not m:
+                return False
+        elif not (isinstance(inner, SObj) and inner.attrs.get('kind') == 'default_ref' and inner.attrs['parts'][0] is f):
+            return False
+        ft = g['short'][k]['ftype']
+        if decided(ft.attrs['text']):
+            e = g['short'][k]['exc'] or (None, None, None)
+            if not (d['kind'] == 'TextFile' and d['patterns'] is e[0] and d['removals'] is e[1]
+                    and d['substrings'] is e[2] and d['encoding'] is ft.attrs['encoding']):
+                return False
+        elif d['kind'] != 'BinaryFile':
+            return False
+    return i == len(defs)
+
+
+contract(GT + 'TestGenerator.write_script', props=['C12', 'C11'], params={}, self_view=_ws_view, on_entry=_ws_entry,
+         spec_env=dict(PRIMS, script_holds_every_check=script_holds_every_check),
+         ensures=[('one-check-per-stream-and-per-output-file-each-with-its-own-exclusions-written-to-the-script-only',
+                   'script_holds_every_check(self)')], max_paths=100000)
